@@ -192,15 +192,6 @@ pub fn stock_evm<'a, I>(db: &'a MemDb, cfg: &CfgEnv, block: &BlockEnv, inspector
     Context::mainnet().with_db(state).with_cfg(cfg.clone()).with_block(block.clone()).build_mainnet_with_inspector(inspector)
 }
 
-/// grevm's sequential path rejects `nonce == u64::MAX` before revm sees the transaction; a stock
-/// run skips such a transaction the same way (the repo's own reference does, execute.rs:345-358).
-fn nonce_overflow<DB: revm::Database>(db: &mut DB, cfg: &CfgEnv, tx: &TxEnv) -> bool {
-    if cfg.disable_nonce_check || tx.nonce != u64::MAX {
-        return false;
-    }
-    matches!(db.basic(tx.caller), Ok(Some(i)) if i.nonce == u64::MAX)
-}
-
 /// In-order execution of `txs`, invalid transactions skipped; `inspect` selects the inspector path.
 pub fn run_stock_on<'a, I, P>(
     evm: &mut revm::context::Evm<StockCtx<'a>, I, revm::handler::instructions::EthInstructions<revm::interpreter::interpreter::EthInterpreter, StockCtx<'a>>, P, revm::handler::EthFrame>,
@@ -215,11 +206,6 @@ where
     let mut outcomes = Vec::with_capacity(txs.len());
     for (i, tx) in txs.iter().enumerate() {
         before_tx(i, &mut evm.inspector);
-        let cfg = evm.ctx.cfg.clone();
-        if nonce_overflow(&mut evm.ctx.journaled_state.database, &cfg, tx) {
-            outcomes.push(TxExecutionOutcome::Skipped(grevm::InvalidTransaction::NonceOverflowInTransaction));
-            continue;
-        }
         let r = if inspect { evm.inspect_tx(tx.clone()) } else { evm.transact(tx.clone()) };
         match r {
             Ok(rs) => {
